@@ -362,7 +362,7 @@ class Interp:
                 raise Discard("tiny_divisor")
             q = Fraction(va) / d
             if (ta in "%&" and tb in "%&" and (ta == "&" or tb == "&") and q.denominator == 1
-                    and 32767 < abs(q) <= I32[1]):
+                    and not (I16[0] <= q <= I16[1]) and I32[0] <= q <= I32[1]):
                 # whole numbers, one of them a LONG: the quotient is computed in double precision, a whole quotient is a LONG
                 return ("&", int(q))
             if not f32_exact(q):
